@@ -78,10 +78,6 @@ Explains(e, tree, c, p) ==
            \/ p.op \in Apis /\ HasDefaultKey(tree)
      \/ id = "C11-duplicate-fullname-accepted" /\ c = "C11:accepted-duplicate-fullname"
      \/ id = "C11-primitive-name-accepted" /\ c = "C11:accepted-primitive-name-redefined"
-     \/ id = "C11-fixed-default-length-unchecked" /\ c = "C11:accepted-default-fixed-wrong-length"
-     \/ id = "C11-default-codepoint-above-255-accepted"
-          /\ c \in {"C11:accepted-default-bytes-codepoint-above-255", "C11:accepted-default-fixed-codepoint-above-255"}
-     \/ id = "C11-bytes-default-array-accepted" /\ c = "C11:accepted-default-bytes-is-arr"
      \/ id = "C11-non-object-field-skipped" /\ c = "C11:accepted-field-not-object"
      \/ id = "C11-integer-default-over-i64-rejected"
           /\ c = "C11:rejected-wellformed:json-number-could-not" /\ HasDefaultIntOverI64(tree)
@@ -99,7 +95,17 @@ Judge(e) ==
       crashP == {<<"C11:" \o a \o "-" \o out(a), [out |-> out(a), kind |-> e.parse[a].kind, op |-> a]>> : a \in {a \in Apis : out(a) \in Crash}}
       crashO == {<<"C11:post-" \o e.post[i].out \o ":" \o e.post[i].op, e.post[i]>>
                    : i \in {i \in 1..Len(e.post) : e.post[i].out \in Crash}}
-      accF == IF W.verdict = "bad" /\ acc # {} THEN {<<"C11:accepted-" \o r, NoPost>> : r \in W.bad} ELSE {}
+      (* default-conformance deviations (DESIGN A.1): a violated rule r is explained by a known finding iff r is no  *)
+      (* longer violated when the document is re-read with exactly that deviation switched on (all three together   *)
+      (* if no single one suffices)                                                                               *)
+      devs == KnownIds \cap {DevFixedLength, DevCodePoint, DevBytesArray}
+      badUnder == TLCEval([id \in devs |-> WFD(e.tree, {id}).bad])
+      badUnderAll == WFD(e.tree, devs).bad
+      devExplains(r) == IF \E id \in devs : r \notin badUnder[id] THEN {id \in devs : r \notin badUnder[id]}
+                        ELSE IF devs # {} /\ r \notin badUnderAll THEN devs ELSE {}
+      accR == IF W.verdict = "bad" /\ acc # {} THEN W.bad ELSE {}
+      accF == {<<"C11:accepted-" \o r, NoPost>> : r \in {r \in accR : devExplains(r) = {}}}
+      accK == UNION {{id \o "|C11:accepted-" \o r : id \in devExplains(r)} : r \in accR}
       rejF == IF W.verdict = "ok" /\ rej # {} THEN {<<"C11:rejected-wellformed:" \o e.parse[a].kind, NoPost>> : a \in rej} ELSE {}
       names == {e.names[i] : i \in 1..Len(e.names)}
       resF == IF W.verdict = "ok" /\ acc # {} /\ Len(e.names) < 64 /\ Len(e.refs) < 64
@@ -109,7 +115,7 @@ Judge(e) ==
       tool == IF e.pred # "none" /\ (e.pred # W.verdict \/ {e.prule[i] : i \in 1..Len(e.prule)} # W.bad)
               THEN {"TOOL:prediction-differs-from-reevaluation"} ELSE {}
       all == crashP \cup crashO \cup accF \cup rejF \cup resF
-      known == UNION {{id \o "|" \o cp[1] : id \in Explains(e, tree, cp[1], cp[2])} : cp \in all}
+      known == accK \cup UNION {{id \o "|" \o cp[1] : id \in Explains(e, tree, cp[1], cp[2])} : cp \in all}
       fail == {cp[1] : cp \in {x \in all : Explains(e, tree, x[1], x[2]) = {}}} \cup tool
       drift ==
         (IF acc # {} /\ rej # {} THEN {"parse-apis-disagree"} ELSE {})
